@@ -153,6 +153,9 @@ def func_family():
     for a1 in ARGS:
         for a2 in ["b", "2*b", "b/a", "1/a", "1/(a + 1)", "b + 1", "-b", "b**2", "a*b*2", "2.5", "z + 3"]:
             exprs.append(f"Mod({a1}, {a2})")
+    # time (both spellings) in sign-sensitive contexts; negative times are legal inputs
+    for v in ("t", "time"):
+        exprs += [f"abs({v})", f"sqrt({v}**2)", f"abs({v} - 1)*x", f"floor({v})", f"Mod({v}, 3)", f"sqrt({v}*{v} + 1)", f"exp(-{v})*abs({v})"]
     exprs += ["floor(x) + floor(-x)", "floor(x/2)*2", "abs(x) - abs(-x)", "abs(x*y) - abs(x)*abs(y)",
               "sqrt(x*x)", "exp(x)*exp(-x)", "log(exp(x))", "exp(log(a))", "sin(x)**2 + cos(x)**2",
               "exp(x + y) - exp(x)*exp(y)", "sqrt(x)**2", "cos(pi)", "sin(pi/2)", "cos(2*pi*x)", "exp(1)", "exp(0)",
@@ -180,6 +183,14 @@ def cond_family():
         e.append(f"ContinuousConditional({r}(x, a), 1, 2, 0.5)")
         e.append(f"ContinuousConditional({r}(x, y), x, y, b)")
         e.append(f"ContinuousConditional({r}(x, a), y, -y, 0.25)*z")
+    for v in ("t", "time"):
+        e += [f"Conditional(Lt({v}, 0), a, b)", f"Conditional(Ge({v}, 0), x, y)", f"Conditional(Gt({v} + 1, 0), x, -x)",
+              f"Lt({v}, 0)*x + Ge({v}, 0)*y", f"Conditional(And(Ge({v}, -1), Le({v}, 2)), -a, 0)", f"Conditional(Le({v}*{v}, 1), x, y)"]
+    # equality against non-integer values and expressions; sums / differences of indicators
+    e += ["Conditional(Eq(x, 0.5), a, b)", "Conditional(Eq(x, y), 1, 2)", "Conditional(Eq(x, a), x, y)", "Conditional(Eq(floor(4*x)/4, 0.25), 1, 0)",
+          "Conditional(Eq(x, -40), a, (x + 40)/b)", "Gt(x, 0) + Gt(x, 1)", "Gt(x, a) + Gt(x, b) + Lt(y, 0)", "Gt(x, 0)*Lt(x, 1)",
+          "Conditional(Gt(x, 0), 1, 0) + Conditional(Gt(y, 0), 1, 0)", "Gt(x, 1) - Gt(y, 1)", "2*Gt(x, 0) - 1",
+          "Conditional(Gt(x, 0), 1, 0) - Conditional(Gt(y, 0), 1, 0)"]
     conn = ["And", "Or"]
     operands = ["Gt(x, 0)", "Lt(y, 2)", "Ge(z, a)", "Le(a, 1)", "Eq(x, 1)", "Gt(b, 1)", "Lt(x, y)", "Not(Gt(x, y))"]
     for k in (2, 3, 4):
@@ -352,4 +363,7 @@ def value_programs(tier, seed):
     P += select(dg, 40 if tier == "quick" else 600, seed)
     P += layout_family()
     P.append(wide_program(12))
+    # a model without parameters (empty parameter tables in every backend)
+    t = "states(x=1.0, y=2.0)\nu = x*y\ndx_dt = -x + u\ndy_dt = -y*u + 0.5\n"
+    P.append({"family": "NOPARAM", "id": text_id(t), "text": t, "meta": {}})
     return P
